@@ -399,6 +399,16 @@ def _oracle_cases(seed: int, scale: float) -> list:
             {"client": "client_b", "codes": [500], "force": True},
             {"client": "client_a", "codes": [409], "force": True},
             {"client": "client_b", "codes": [500], "force": False}]})
+    # a REFUSED non-force run (existing client, changed spec: a status dropped / added) must leave no trace: the generations that
+    # follow it must still emit every alias the untouched client files import
+    for depth in (1, 2):
+        for changed in ([422], [404, 422, 409], []):
+            cases.append({"id": len(cases), "core_package": CORE_BY_DEPTH[depth], "steps": [
+                {"client": "client_a", "codes": [404, 422], "force": True},
+                {"client": "client_b", "codes": [500], "force": True},
+                {"client": "client_a", "codes": changed, "force": False},
+                {"client": "client_c", "codes": [409], "force": True},
+                {"client": "client_b", "codes": [500, 503], "force": True}]})
     n_random = max(0, int(round(16 * scale)))
     for k in range(n_random):
         depth = 1 + (k % 4)
